@@ -30,6 +30,15 @@ def part_b(ck, replay=None):
     obs = vf.run_harness("vconc", "reqcache", cases, timeout=3000)
     if len(obs) != len(cases):
         raise vf.NotAVerdict("reqcache harness returned %d of %d" % (len(obs), len(cases)))
+    # a "stuck" / "did not return" mismatch may be a loaded machine: confirmed alone, sequentially, with a 60 s limit
+    slow = [o for o in obs if o["mismatch"] and ("(stuck)" in o["mismatch"] or "did not return within" in o["mismatch"])]
+    if slow:
+        again = vf.run_harness("vconc", "reqcache", [cases[o["i"]] for o in slow[:5]], timeout=3000, args=["-workers", "1"],
+                               env_extra={"VERIF_RC_TIMEOUT_MS": "60000"})
+        for o, a in zip(slow[:5], sorted(again, key=lambda x: x["i"])):
+            o["mismatch"] = a["mismatch"]
+        for o in slow[5:]:
+            o["mismatch"] = ""
     bad = 0
     for o in obs:
         if o["mismatch"]:
@@ -59,6 +68,11 @@ def part_b(ck, replay=None):
             if "DATA RACE" in rp.stderr:
                 ck.violation("data race reported by the Go race detector in RequestCache stress run:\n" + rp.stderr[:3000],
                              {"part": "b", "race": rp.stderr[:6000], "g": g, "k": k})
+                continue
+            if rp.returncode == 3 and "STRESS-RUN-HUNG" in rp.stderr:
+                line = [l for l in rp.stderr.splitlines() if "STRESS-RUN-HUNG" in l][0]
+                ck.violation("an ungated stress run of the real RequestCache did not terminate: " + line,
+                             {"part": "b", "hang": line, "g": g, "k": k, "seed": ck.seed * 7 + j})
                 continue
             if rp.returncode != 0:
                 vf.log(rp.stderr[-3000:])
